@@ -7,6 +7,7 @@ import (
 	"strconv"
 	"strings"
 
+	"verif/checks/c01"
 	"verif/checks/c02"
 	"verif/checks/ccrypto"
 	"verif/engine"
@@ -18,6 +19,7 @@ type check struct {
 }
 
 var checks = map[string]check{
+	"C01": {"model_checking", c01.Run},
 	"C02": {"model_checking", c02.Run},
 	"C05": {"model_checking", ccrypto.RunC05},
 	"C06": {"model_checking", ccrypto.RunC06},
